@@ -7,7 +7,8 @@ What is modelled is the part of save / load that is LOGIC rather than field copy
   types, units, enums, attributes) once, in network-level lists sorted by a comparator, and refers
   to them by entity id; the loader rebuilds the id → entity maps (a later entry with the same id
   replaces an earlier one) and resolves the references, refusing dangling ids and the duplicated
-  ids it checks (buses, messages of an interface, an interface attached twice);
+  ids it checks (buses, messages of the network, signals listed by two different parents, an
+  interface attached twice);
 * signal trees — relative positions (`SignalPayload` refs), the three signal kinds, and the
   multiplexer: children, the list of fixed children, one position list per group, THE GROUP ID
   BEING THE LIST INDEX; the loader re-inserts group by group, checks that a child has one position
@@ -472,7 +473,8 @@ inductive LoadErr where
   /-- `EntityIDError{ErrNotFound}` naming one of `ids`: the children of a multiplexer that are in no
       group layout (which one is named depends on Go's map iteration order) -/
   | unplaced (ids : List Id)
-  /-- `EntityIDError{ErrIsDuplicated}`: bus id, message id within an interface, interface (node id) attached twice -/
+  /-- `EntityIDError{ErrIsDuplicated}`: bus id, message id (anywhere in the network), signal id listed
+      by two different parents, interface (node id) attached twice -/
   | duplicated (id : Id)
   /-- `StartBitError{ErrOutOfBounds}`: a multiplexer child with two positions -/
   | twoPositions (pos : Nat)
@@ -612,45 +614,74 @@ def assembleMux (gc : Nat) (kids : List Sig) (fixed : List Id) (groups : List (L
 /-- `switch pSig.Kind`: an unknown constant leaves the zero value (standard) -/
 def sigKindOf (tag : Nat) : Nat := if tag == 2 then 2 else if tag == 3 then 3 else 1
 
+/-- `loaderSignalOwner`: the message or the multiplexer signal that lists a signal -/
+inductive Owner where
+  | msg (id : Id)
+  | sig (id : Id)
+  deriving DecidableEq, Repr, Inhabited
+
+/-- `loader.sigEntIDs`: the signal ids loaded so far, each with its owner (the newest entry of an
+    id comes first and is the one that counts) -/
+abbrev Seen := List (Id × Owner)
+
+def Seen.owner (sn : Seen) (id : Id) : Option Owner :=
+  match sn.find? (fun p => p.1 == id) with
+  | some p => some p.2
+  | none => none
+
+/-- the check at the head of `loadSignal`: an id that was loaded under a DIFFERENT owner is
+    refused; the same owner may list it again (a multi-group child is written once per group);
+    the entry is (re)written -/
+def seeSig (sn : Seen) (id : Id) (o : Owner) : LE Seen :=
+  match sn.owner id with
+  | some o' => if o' = o then .ok ((id, o) :: sn) else .error (.duplicated id)
+  | none => .ok ((id, o) :: sn)
+
 mutual
-  def loadSig (t : Tbl) : PSig → LE Sig
+  /-- `loadSignal`: the entity, the owner check, the oneof (with the children of a multiplexer),
+      then the attribute assignments -/
+  def loadSig (t : Tbl) (o : Owner) (sn : Seen) : PSig → LE (Sig × Seen)
     | .mk e asg kind body =>
-      match loadBody t (sigKindOf kind) body with
+      match seeSig sn e.id o with
       | .error err => .error err
-      | .ok b =>
-        match loadAsgs t asg with
+      | .ok sn1 =>
+        match loadBody t (sigKindOf kind) e.id sn1 body with
         | .error err => .error err
-        | .ok a => .ok (.mk e a b)
-  def loadBody (t : Tbl) (kind : Nat) : PBody → LE Body
+        | .ok (b, sn2) =>
+          match loadAsgs t asg with
+          | .error err => .error err
+          | .ok a => .ok (.mk e a b, sn2)
+  /-- `self`: the entity id of the signal the body belongs to (the owner of its children) -/
+  def loadBody (t : Tbl) (kind : Nat) (self : Id) (sn : Seen) : PBody → LE (Body × Seen)
     | .none => .error .missingOneof
     | .std ty un =>
       if kind != 1 then .error (.invalidOneof 1)
       else if (findEnt t.types ty).isNone then .error (.notFound .type ty)
       else if un != "" && (findEnt t.units un).isNone then .error (.notFound .unit un)
-      else .ok (.std ty (if un == "" then none else some un))
+      else .ok (.std ty (if un == "" then none else some un), sn)
     | .enm en =>
       if kind != 2 then .error (.invalidOneof 2)
       else if (findEnt t.enums en).isNone then .error (.notFound .enum en)
-      else .ok (.enm en)
+      else .ok (.enm en, sn)
     | .mux gc sigs fixed groups =>
       if kind != 3 then .error (.invalidOneof 3)
       else if gc == 0 then .error .groupCountZero
       else
-        match loadSigs t sigs with
+        match loadSigs t (.sig self) sn sigs with
         | .error err => .error err
-        | .ok ks =>
+        | .ok (ks, sn1) =>
           match assembleMux gc (dedupLast Sig.id ks) fixed groups with
           | .error err => .error err
-          | .ok kids => .ok (.mux gc kids)
-  def loadSigs (t : Tbl) : List PSig → LE (List Sig)
-    | [] => .ok []
+          | .ok kids => .ok (.mux gc kids, sn1)
+  def loadSigs (t : Tbl) (o : Owner) (sn : Seen) : List PSig → LE (List Sig × Seen)
+    | [] => .ok ([], sn)
     | p :: r =>
-      match loadSig t p with
+      match loadSig t o sn p with
       | .error err => .error err
-      | .ok s =>
-        match loadSigs t r with
+      | .ok (s, sn1) =>
+        match loadSigs t o sn1 r with
         | .error err => .error err
-        | .ok ss => .ok (s :: ss)
+        | .ok (ss, sn2) => .ok (s :: ss, sn2)
 end
 
 /-! ### messages, interfaces, buses -/
@@ -663,20 +694,24 @@ structure St where
   sent : List ((Id × Nat) × Id) := []
   /-- `receivedMessages` of the interfaces: (interface, message id) -/
   received : List ((Id × Nat) × Id) := []
+  /-- `loader.msgEntIDs`: the entity ids of the messages loaded so far -/
+  msgs : List Id := []
+  /-- `loader.sigEntIDs` -/
+  sigs : Seen := []
 
 /-- the loop over `pMsg.Signals`: load the signal, then look its position up -/
-def loadTop (t : Tbl) (refs : List (Id × Nat)) : List PSig → LE (List (Sig × Nat))
-  | [] => .ok []
+def loadTop (t : Tbl) (refs : List (Id × Nat)) (o : Owner) (sn : Seen) : List PSig → LE (List (Sig × Nat) × Seen)
+  | [] => .ok ([], sn)
   | p :: r =>
-    match loadSig t p with
+    match loadSig t o sn p with
     | .error err => .error err
-    | .ok s =>
+    | .ok (s, sn1) =>
       match lookupLast refs p.id with
       | none => .error (.notFound .position p.id)
       | some pos =>
-        match loadTop t refs r with
+        match loadTop t refs o sn1 r with
         | .error err => .error err
-        | .ok ss => .ok ((s, pos) :: ss)
+        | .ok (ss, sn2) => .ok ((s, pos) :: ss, sn2)
 
 /-- the loop over `pMsg.Receivers`: `msg.AddReceiver` silently does nothing when the interface
     already sends a message with this id; `msg.receivers` is a map keyed by the node id -/
@@ -692,20 +727,24 @@ def loadRecvs (t : Tbl) (mid : Id) (st : St) (acc : List Recv) : List (Id × Nat
         loadRecvs t mid { st with received := ((node, num), mid) :: st.received }
           (upsert Recv.node ⟨node, num⟩ acc) r
 
+/-- `loadMessage`: the entity id must be new in the network (checked before anything else), then
+    the signals, the receivers, the attribute assignments -/
 def loadMsg (t : Tbl) (st : St) (p : PMsg) : LE (Msg × St) :=
-  match loadTop t p.refs p.sigs with
-  | .error err => .error err
-  | .ok sigs =>
-    match loadRecvs t p.e.id st [] p.recvs with
+  if st.msgs.contains p.e.id then .error (.duplicated p.e.id)
+  else
+    match loadTop t p.refs (.msg p.e.id) st.sigs p.sigs with
     | .error err => .error err
-    | .ok (recvs, st') =>
-      match loadAsgs t p.asg with
+    | .ok (sigs, sn) =>
+      match loadRecvs t p.e.id { st with msgs := p.e.id :: st.msgs, sigs := sn } [] p.recvs with
       | .error err => .error err
-      | .ok asg =>
-        .ok ({ e := p.e, asg := asg
-               mid := if p.hasStatic then p.staticVal else p.mid
-               static := if p.hasStatic then some p.staticVal else none
-               sigs := sigs, recvs := recvs }, st')
+      | .ok (recvs, st') =>
+        match loadAsgs t p.asg with
+        | .error err => .error err
+        | .ok asg =>
+          .ok ({ e := p.e, asg := asg
+                 mid := if p.hasStatic then p.staticVal else p.mid
+                 static := if p.hasStatic then some p.staticVal else none
+                 sigs := sigs, recvs := recvs }, st')
 
 /-- the loop over the messages of an interface -/
 def loadMsgs (t : Tbl) (key : Id × Nat) (st : St) : List PMsg → LE (List Msg × St)
